@@ -7,6 +7,7 @@ value == I(other lines of the same solution) in real arithmetic; reads constrain
 Carry lines: the value equals the named line of the other form, or is blank when that form is not demanded.
 """
 import json
+import re
 import os
 import time
 from fractions import Fraction
@@ -61,6 +62,19 @@ def collect_instructions(year, fname):
             unparsed.append(f'{line} (override: {overrides[key][:80]})')
     tr = transcribed().get(str(year), {}).get(fname.split(':')[0], {})
     for line, ent in tr.items():
+        if ent.get('verbatim'):
+            # a transcription that claims to be the template's own text must occur verbatim in the bundled PDF
+            vf = cat.forms.get(ent.get('verbatim_form', fname))
+            ok = False
+            if vf is not None and vf.pdf_file() and os.path.exists(vf.pdf_file()):
+                ok = re.sub(r'\s+', ' ', ent['verbatim']) in pdfread.page_text(vf.pdf_file())
+            if not ok:
+                unparsed.append(f'{line} (transcribed sentence not found in the bundled template)')
+                continue
+        if ent.get('carry'):
+            if line not in out:
+                out[line] = (('carry', ent['carry'][0], ent['carry'][1]), f'transcribed:{ent["source"]}: {ent["text"]}')
+            continue
         r = instr.parse(ent['text'], ent.get('order'), line)
         if r is not None and line not in out:
             out[line] = (r[0], f'transcribed:{ent["source"]}: "{ent["text"]}"')
@@ -108,6 +122,11 @@ def term_z3(term, year, form, cat):
     if k == 'ite_gt':
         a, b = term_z3(term[1], year, form, cat), term_z3(term[2], year, form, cat)
         return z3.If(a > b, term_z3(term[3], year, form, cat), term_z3(term[4], year, form, cat))
+    if k == 'ceilmult':
+        m = z3.RealVal(str(term[1]))
+        x = term_z3(term[2], year, form, cat)
+        # least multiple of m that is >= x:  m * ceil(x / m), ceil(y) = -floor(-y)
+        return m * z3.ToReal(-z3.ToInt(-(x / m)))
     if k == 'by_status':
         enum = status_enum(year)
         sort, consts, none, cls = sym.enum_sort(enum)
@@ -141,6 +160,10 @@ def eval_native(term, form, values, inputs):
         return max(eval_native(t, form, values, inputs) for t in term[1])
     if k == 'ite_gt':
         return eval_native(term[3], form, values, inputs) if eval_native(term[1], form, values, inputs) > eval_native(term[2], form, values, inputs) else eval_native(term[4], form, values, inputs)
+    if k == 'ceilmult':
+        import math
+        x = eval_native(term[2], form, values, inputs)
+        return None if x is None else term[1] * math.ceil(x / term[1])
     if k == 'by_status':
         st = inputs.get('1040.filing_status')
         return term[1].get(getattr(st, 'name', None), term[2])
@@ -308,8 +331,15 @@ def carry_ob(year, fname, full, fld, term, prov, paths, fid, cat, t0):
         values.setdefault(target, 123.45)
         wit = {'inputs': {k: repr(v) for k, v in inputs.items()}, 'values': {k: repr(v) for k, v in values.items()}}
         rep = replay.replay_line(year, full, inputs, values)
-        rep['reproduced'] = rep.get('outcome') == 'return' and rep.get('value') not in (repr(values[target]), '0.0', 'None')
+        # with the target line holding a non-zero amount, a carry returns that amount or (form not demanded) blank; the model's
+        # inputs say which: a value that is neither, or a zero although the line is demanded and read elsewhere, is the failure
+        rep['reproduced'] = rep.get('outcome') == 'return' and rep.get('value') != repr(values[target]) and (
+            rep.get('value') not in ('0.0', 'None') or target not in (rep.get('filled_defaults') or []) and target not in p_reads(p))
     return Ob(id=oid, status=oblig.REFUTED, backend='z3', function=fid, clause='NOT: ' + clause, solver_output=why, witness=wit, replay=rep)
+
+
+def p_reads(p):
+    return [r[1] for r in p.reads if r[0] == 'v']
 
 
 def run(tier, seed, t0):
